@@ -528,7 +528,7 @@ func c07Gen(r *rand.Rand, tier string) *sim.Scn {
 				s.Ops = append(s.Ops, sim.Op{K: "produce"})
 			case x < 60:
 				if r.IntN(100) < pFault {
-					s.Ops = append(s.Ops, sim.Op{K: "da", A: r.Int64N(12), B: r.Int64N(5), C: r.Int64N(2)})
+					s.Ops = append(s.Ops, sim.Op{K: "da", A: r.Int64N(14), B: r.Int64N(5), C: r.Int64N(2)})
 				}
 				op := sim.Op{K: []string{"subh", "subd"}[r.IntN(2)], A: r.Int64N(3)}
 				if r.IntN(8) == 0 {
